@@ -103,6 +103,11 @@ class SystemProblem:
         for n in self.names:
             no = self.nets[n].n_out
             self.obs_slice[n] = None if (no == 1 or rng.integers(3) == 0) else [[0, 1], [1, 2]][int(rng.integers(2))]
+        # per-unknown component selection of the boundary condition (same rule, drawn independently)
+        self.bdim = {}
+        for n in self.names:
+            no = self.nets[n].n_out
+            self.bdim[n] = None if (no == 1 or rng.integers(3) == 0) else [[0, 1], [1, 2]][int(rng.integers(2))]
         self.t0 = 0.25
         self.u0 = {n: rng.uniform(-1, 1, self.nets[n].n_out) for n in self.names}
         self.fb = {n: float(rng.uniform(-0.5, 0.5)) for n in self.names}
@@ -154,8 +159,10 @@ class SystemProblem:
             u_dict=u_dict, dynamic_loss_dict=dyn, **extra,
             omega_boundary_fun_dict={n: (fbf[n] if has(n, "boundary") else None) for n in self.names},
             omega_boundary_condition_dict={n: ("dirichlet" if has(n, "boundary") else None) for n in self.names},
-            norm_samples_dict={n: (jnp.asarray(self.norm_samples) if has(n, "norm") else None) for n in self.names},
-            norm_int_length_dict={n: (self.V if has(n, "norm") else None) for n in self.names},
+            **({"omega_boundary_dim_dict": {n: (None if v is None else jnp.s_[v[0]:v[1]]) for n, v in self.bdim.items()}}
+               if any(v is not None for v in self.bdim.values()) else {}),
+            norm_samples_dict={n: (jnp.asarray(self.norm_samples_n[n]) if has(n, "norm") else None) for n in self.names},
+            norm_int_length_dict={n: (self.V_n[n] if has(n, "norm") else None) for n in self.names},
             loss_weights=jinns.loss.LossWeightsPDEDict(**lwkw), params_dict=self.params, **kw)
 
     def make_data(self, B):
@@ -163,6 +170,10 @@ class SystemProblem:
         self.B = B
         self.pts = rng.uniform(0, 1, (B, 1)) if kind == "ode" else rng.uniform(-1, 2, (B, D))
         self.norm_samples = rng.uniform(-1, 2, (3, max(d, 1)))
+        # every unknown has its own normalisation sample set (sizes differ) and its own domain volume
+        self.norm_samples_n = {n: (self.norm_samples if i == 0 else rng.uniform(-1, 2, (3 + i, max(d, 1))))
+                               for i, n in enumerate(self.names)}
+        self.V_n = {n: self.V * (1.0 + 0.6 * i) for i, n in enumerate(self.names)}
         if kind != "ode":
             nf = 2 * d
             cols = []
@@ -241,16 +252,20 @@ class SystemProblem:
                 out["initial_condition"] = wsum("ic", lambda n: float(np.mean(
                     [np.sum((self.u0[n] - self.nets[n].val(np.concatenate([[0.0], self.pts[i, 1:]]), eq_rows[i])) ** 2)
                      for i in range(B)])))
+        def bsl(n, v):
+            return v if self.bdim[n] is None else v[self.bdim[n][0]:self.bdim[n][1]]
+
         if "boundary" in self.terms_avail:
             out["boundary_loss"] = wsum("boundary", lambda n: sum(float(np.mean(
-                [np.sum((self.nets[n].val(self.border[i, :, f], eq_rows[i]) - self.fb[n]) ** 2) for i in range(B)]))
+                [np.sum((bsl(n, self.nets[n].val(self.border[i, :, f], eq_rows[i])) - self.fb[n]) ** 2) for i in range(B)]))
                 for f in range(self.border.shape[-1])))
         if "norm" in self.terms_avail and eq_rows[0] == eq_rows[-1]:
             def nrm(n):
+                V, smp = self.V_n[n], self.norm_samples_n[n]
                 if self.kind == "statio":
-                    return float((self.V * np.mean([self.nets[n].val(x, eq_rows[0])[0] for x in self.norm_samples]) - 1) ** 2)
-                return float(np.mean([(self.V * np.mean([self.nets[n].val(np.concatenate([[self.pts[i, 0]], x]), eq_rows[0])[0]
-                                                         for x in self.norm_samples]) - 1) ** 2 for i in range(B)]))
+                    return float((V * np.mean([self.nets[n].val(x, eq_rows[0])[0] for x in smp]) - 1) ** 2)
+                return float(np.mean([(V * np.mean([self.nets[n].val(np.concatenate([[self.pts[i, 0]], x]), eq_rows[0])[0]
+                                                    for x in smp]) - 1) ** 2 for i in range(B)]))
             out["norm_loss"] = wsum("norm", nrm)
         def osl(n, v):
             return v if self.obs_slice[n] is None else v[self.obs_slice[n][0]:self.obs_slice[n][1]]
@@ -463,9 +478,10 @@ def run_case(case, rec):
             kw = {}
             if has("boundary"):
                 kw.update(omega_boundary_fun=(lambda dx: sp.fb[n]) if kind == "statio" else (lambda t, dx: sp.fb[n]),
-                          omega_boundary_condition="dirichlet")
+                          omega_boundary_condition="dirichlet",
+                          **({} if sp.bdim[n] is None else {"omega_boundary_dim": jnp.s_[sp.bdim[n][0]:sp.bdim[n][1]]}))
             if has("norm"):
-                kw.update(norm_samples=jnp.asarray(sp.norm_samples), norm_int_length=sp.V)
+                kw.update(norm_samples=jnp.asarray(sp.norm_samples_n[n]), norm_int_length=sp.V_n[n])
             if kind == "statio":
                 plain = jinns.loss.LossPDEStatio(u=u, dynamic_loss=dl, loss_weights=jinns.loss.LossWeightsPDEStatio(
                     dyn_loss=Wn["dyn"], boundary_loss=Wn["boundary"], norm_loss=Wn["norm"], observations=Wn["obs"]),
